@@ -917,6 +917,8 @@ fn c02(tier: Tier, seed: u64) -> i32 {
 					p
 				})
 				.collect();
+			let mut pairs = pairs;
+			surface_pairs(&mut ctx, "C02", &mut pairs);
 			let items: Vec<usize> = (0..pairs.len()).collect();
 			ctx.enumerate("types-member-list-cannot-change-after-construction", items, |i, want| types_report(&tc, &pairs[*i], want));
 			tc.cleanup();
@@ -1050,7 +1052,8 @@ fn c01(tier: Tier, seed: u64) -> i32 {
 	// thread would spin on a lock it holds itself): decided at compile time
 	match crate::tyeng::Toolchain::locate() {
 		Ok(tc) => {
-			let pairs = crate::tyeng::families_mutation_after_check();
+			let mut pairs = crate::tyeng::families_mutation_after_check();
+			surface_pairs(&mut ctx, "C01", &mut pairs);
 			let items: Vec<usize> = (0..pairs.len()).collect();
 			ctx.enumerate("types-mutation-after-check-is-rejected", items, |i, want| types_report(&tc, &pairs[*i], want));
 			tc.cleanup();
@@ -1531,7 +1534,7 @@ pub fn types_campaign(ctx: &mut CheckCtx, prop: &str, tier: Tier, quick_n: u64) 
 	};
 	let mut pairs = types_pairs_for(prop, tier);
 	// API-surface-driven part: the methods are read from the tree under test
-	if prop == "C15" {
+	if prop == "C15" || prop == "C14" {
 		surface_pairs(ctx, prop, &mut pairs);
 	}
 	let total = pairs.len();
@@ -1557,12 +1560,19 @@ pub fn surface_pairs(ctx: &mut CheckCtx, prop: &str, pairs: &mut Vec<crate::tyen
 		Ok(doc) => {
 			let (ms, st) = crate::surface::methods(&doc);
 			let n0 = pairs.len();
-			pairs.extend(crate::surface::families_surface(prop, &ms));
+			if prop != "C14" && prop != "C02" && prop != "C01" {
+				pairs.extend(crate::surface::families_surface(prop, &ms));
+			}
+			if matches!(prop, "C14" | "C02" | "C01") {
+				let (shape_pairs, seen) = crate::surface::families_surface_shapes(prop, &doc);
+				ctx.extra.insert("api_surface_shapes".into(), json!({"functions_seen": seen, "pairs_generated": shape_pairs.len(), "names": shape_pairs.iter().map(|p| p.name.clone()).collect::<Vec<_>>()}));
+				pairs.extend(shape_pairs);
+			}
 			ctx.extra.insert(
 				"api_surface".into(),
 				json!({"source": "cargo +nightly rustdoc --output-format json on /repo's working tree", "hold_types": crate::surface::HOLD_TYPES, "methods_seen": st.methods_seen, "by_reference_and_reference_in_result": ms.len(), "skipped_by_value_or_extra_args": st.skipped_by_value_or_extra_args, "skipped_no_reference_in_result": st.skipped_no_reference_in_result, "pairs_generated": pairs.len() - n0, "methods": ms.iter().map(|m| format!("{}::{}", m.owner, m.name)).collect::<Vec<_>>()}),
 			);
-			if ms.len() < 8 {
+			if ms.len() < 8 && !matches!(prop, "C14" | "C02" | "C01") {
 				ctx.health_errors.push(format!("API surface: only {} by-reference methods with a reference in their result were found on the hold types (Deref / AsRef alone are more)", ms.len()));
 			}
 		}
